@@ -22,7 +22,8 @@ LEVEL = "exploration"
 RULE = ("totality: Hypothesis token-level generation over ProbLog's token alphabet (atoms, variables, numbers, strings, "
         "quoted atoms, every operator of the parser's table, punctuation, comments, aggregates, balanced bracket "
         "groups), raw character strings, and 1-4 token/character mutations (delete/insert/replace/transpose/duplicate) "
-        "of statements of /repo/test/*.pl, of 41 short seed statements and of rendered generated programs "
+        "of statements of /repo/test/*.pl, of 41 short seed statements and of rendered generated programs, 20 statement "
+        "skeletons (odd heads, probabilities, aggregates) with 1-2 random tokens per hole "
         "(pbt.gen.programs); oracle: list(PrologString(s)) and Term.from_string(s) return or raise a ProbLogError "
         "subclass. Non-trivial: the text contains a '.' or an operator token. thorough tier: atheris campaigns "
         "(empty corpus, 41-statement corpus; -runs/-seed fixed) whose recorded inputs are re-checked here. "
@@ -40,8 +41,15 @@ ASSUMPTIONS = [
     "compound term",
     "Term('-', Constant(1)) with opspec is outside the domain: the parser folds -(number) into a negative Constant, "
     "so the generator does the same (PrologFactory.build_unop)",
-    "ASTs whose explicit fully-parenthesised text does not parse to the constructed term are counted as "
-    "'outside-parser-image' and not judged (none are expected)",
+    "the round-trip domain is the image of the parser: every AST is rendered by the harness as fully parenthesised "
+    "text and parsed; the parsed term is always judged, the constructor-built term only when it equals the parsed one "
+    "(class 'roundtrip-ok-outside-parser-image' counts the others; texts the parser rejects are not judged)",
+    "negative head literals (\\+a :- b) are rewritten by ExtendedPrologFactory into a_p/a_n clauses, so they are not a "
+    "print/parse identity and are left out of the round-trip domain (they are part of the totality domain)",
+    "probability annotations are compared explicitly (Term.__eq__ ignores them): 'an equal term' is read as equal "
+    "including the p:: annotations the statement lists",
+    "failure signatures of the round trip are root-cause families computed from a minimal failing sub-term: "
+    "rt:<family>:<node class>/<offending child class> (see root_cause())",
     "floats are drawn with <= 6 significant digits (Constant rounds to 15 decimals; see C28)",
 ]
 
@@ -156,7 +164,7 @@ def run_atheris(mode, runs, seed, with_corpus, max_len=96, timeout=3000):
                            cwd=os.path.dirname(os.path.dirname(os.path.dirname(os.path.abspath(__file__)))))
         tail = p.stdout.decode("utf8", "replace")[-400:]
         info["rc"] = p.returncode
-        info["done"] = "Done" in tail
+        info["done"] = p.returncode == 0
         info["tail"] = tail
     except subprocess.TimeoutExpired:
         info["rc"] = "timeout"
@@ -177,6 +185,10 @@ def run_atheris(mode, runs, seed, with_corpus, max_len=96, timeout=3000):
 
 
 def _atheris_cases(tier):
+    try:  # C17_ATHERIS_RUNS overrides the number of executions (smoke tests of the thorough tier)
+        ATHERIS_RUNS[tier] = int(os.environ["C17_ATHERIS_RUNS"]) if tier == "thorough" else ATHERIS_RUNS[tier]
+    except (KeyError, ValueError):
+        pass
     if ATHERIS_RUNS.get(tier, 0) <= 0:
         return []
     try:
